@@ -8,9 +8,9 @@ patch="$1"; shift
 name=$(basename "$(dirname "$(dirname "$patch")")")
 cd /verif
 if [ -n "$(git -C /repo status --porcelain)" ]; then echo "/repo is not clean"; exit 2; fi
-git -C /repo apply "$patch" || { echo "patch does not apply"; exit 2; }
+git -C /repo apply "$patch" 2>/dev/null || git -C /repo apply --3way "$patch" || { echo "patch does not apply"; git -C /repo reset -q --hard HEAD; exit 2; }
 restore() {
-  git -C /repo checkout -- .
+  git -C /repo reset -q --hard HEAD
   git -C /verif checkout -- evidence/ 2>/dev/null
   git -C /repo status --porcelain
 }
